@@ -61,9 +61,7 @@ func ParseGraphite(mode string, writes []bk.Write, opt Options) []Payload {
 			errs.addf("unknown graphite mode %q", mode)
 		}
 		lines, missing := txtLines(string(w.Data))
-		if len(lines) == 0 {
-			errs.addf("empty write")
-		}
+		// an empty write puts nothing on the stream: nothing to judge (an empty flush produces one)
 		if missing {
 			errs.addf("the last line does not end in a newline: %q", txtWire(lines[len(lines)-1]))
 		}
@@ -175,7 +173,7 @@ func txtGraphiteLine(mode, line string, lineNo int, opt Options, errs *txtErrs) 
 				fail("value of tag %q starts with '~'", k)
 			}
 			if seen[k] {
-				fail("tag name %q occurs twice", k)
+				// not a syntax error: Graphite's tag parser accepts it and keeps one of the two; reported as found
 			}
 			seen[k] = true
 			tags = append(tags, k+":"+v)
@@ -207,7 +205,9 @@ func txtGraphiteLine(mode, line string, lineNo int, opt Options, errs *txtErrs) 
 	if histogram {
 		switch {
 		case !haveLE:
-			fail("histogram bucket of timer %q without the le tag: the bound of the bucket is not on the wire", series)
+			if mode == "tags" { // legacy and basic drop all tags by design (BACKENDS.md), the bound with them
+				fail("histogram bucket of timer %q without the le tag: the bound of the bucket is not on the wire", series)
+			}
 			rec.Sub = "le:?"
 		case le != "+Inf" && !txtIsDecimal(le):
 			fail("histogram bucket bound %q is not a number", le)
